@@ -48,7 +48,7 @@ _TOKEN = re.compile(r"""
     (?P<num>\d+) |
     (?P<macro>[A-Za-z_][A-Za-z0-9_]*!) |
     (?P<id>[A-Za-z_][A-Za-z0-9_]*) |
-    (?P<op>::|->|=>|==|!=|&&|\|\||\+=|-=|[!.,;:(){}\[\]&=<>*|+-])
+    (?P<op>::|->|=>|==|!=|<=|>=|&&|\|\||\+=|-=|[!.,;:(){}\[\]&=<>*|+-])
 """, re.X)
 
 
@@ -152,6 +152,17 @@ class _Parser:
             if self.at("mut"):
                 self.eat("mut")
                 mutable = True
+            if self.at("("):
+                self.eat("(")
+                names = [self.ident()]
+                while self.at(","):
+                    self.eat(",")
+                    names.append(self.ident())
+                self.eat(")")
+                self.eat("=")
+                e = self.expr()
+                self.eat(";")
+                return ("lettuple", names, e, line)
             name = self.ident()
             self.eat("=")
             if self.peek().kind == "macro":
@@ -190,6 +201,20 @@ class _Parser:
             return ("return", e, line)
         if self.at("if") and self.at("let", 1):
             start = self.i
+            # `if let Some(x) = EXPR { .. }` is also parsed (used when the block is not a unit-trace block)
+            structured = None
+            if self.at("Some", 2) and self.at("(", 3) and self.peek(4).kind == "id" and self.at(")", 5) and self.at("=", 6):
+                try:
+                    self.i += 4
+                    var = self.ident()
+                    self.eat(")")
+                    self.eat("=")
+                    scrut = self.expr(no_struct=True)
+                    body = self.block()
+                    structured = (var, scrut, body)
+                except _Fail:
+                    structured = None
+                self.i = start
             # `if let PATTERN = EXPR { .. }`: kept as text
             while not self.at("{"):
                 if self.peek().kind == "eof":
@@ -199,7 +224,7 @@ class _Parser:
             body = self.raw_until_block_end()
             if self.at("else"):
                 self.fail("`if let .. else` is not in the subset")
-            return ("iflet", head + " " + body, line)
+            return ("iflet", head + " " + body, line, structured)
         if self.at("if"):
             node = self.if_chain()
             # an `if` at the end of a block is its value iff its branches have values
@@ -207,23 +232,10 @@ class _Parser:
                 return ("tail", node)
             return node
         if self.at("match"):
-            self.eat("match")
-            scrut = self.expr(no_struct=True)
-            self.eat("{")
-            arms = []
-            while not self.at("}"):
-                path = [self.ident()]
-                while self.at("::"):
-                    self.eat("::")
-                    path.append(self.ident())
-                self.eat("=>")
-                arms.append(("::".join(path), self.block(), self.peek().line))
-                if self.at(","):
-                    self.eat(",")
-            self.eat("}")
+            node = self.match_node()
             if self.at("}"):
-                return ("tail", ("match", scrut, arms, line))
-            return ("match", scrut, arms, line)
+                return ("tail", node)
+            return node
         # expression statement / assignment / tail expression
         e = self.expr()
         if self.at("="):
@@ -241,6 +253,37 @@ class _Parser:
             self.eat(";")
             return ("expr", e, line)
         return ("tail", e)
+
+    def match_node(self):
+        """`match E { PATH [(x)] => BLOCK | EXPR [,] .. }` -> ("match", scrut, [(path, (stmts, tail), line, binder)], line)"""
+        line = self.peek().line
+        self.eat("match")
+        scrut = self.expr(no_struct=True)
+        self.eat("{")
+        arms = []
+        while not self.at("}"):
+            aline = self.peek().line
+            path = [self.ident()]
+            while self.at("::"):
+                self.eat("::")
+                path.append(self.ident())
+            binder = None
+            if self.at("("):
+                self.eat("(")
+                binder = self.ident()
+                self.eat(")")
+            self.eat("=>")
+            if self.at("{"):
+                body = self.block()
+            elif self.at("match"):
+                body = ([], self.match_node())
+            else:
+                body = ([], self.expr())
+            arms.append(("::".join(path), body, aline, binder))
+            if self.at(","):
+                self.eat(",")
+        self.eat("}")
+        return ("match", scrut, arms, line)
 
     def if_chain(self):
         line = self.peek().line
@@ -287,7 +330,7 @@ class _Parser:
 
     def cmp_expr(self, ns):
         e = self.unary(ns)
-        if self.at("==") or self.at("!="):
+        if self.at("==") or self.at("!=") or self.at("<") or self.at(">") or self.at("<=") or self.at(">="):
             op = self.peek()
             self.i += 1
             e = ("bin", op.text, e, self.unary(ns), op.line)
@@ -308,6 +351,10 @@ class _Parser:
         e = self.primary(ns)
         while self.at("."):
             line = self.eat(".").line
+            if self.peek().kind == "num":
+                e = ("field", e, self.peek().text, line)
+                self.i += 1
+                continue
             name = self.ident()
             if self.at("("):
                 self.eat("(")
@@ -336,6 +383,13 @@ class _Parser:
         if tok.text == "(":
             self.eat("(")
             e = self.expr()
+            if self.at(","):
+                items = [e]
+                while self.at(","):
+                    self.eat(",")
+                    items.append(self.expr())
+                self.eat(")")
+                return ("tuple", items, tok.line)
             self.eat(")")
             return e
         if tok.kind == "num":
@@ -361,6 +415,11 @@ class _Parser:
                     self.eat(")")
                     return ("pathcall", "::".join(path), tok.line)
                 return ("path", "::".join(path), tok.line)
+            if path[0] == "Some" and self.at("("):
+                self.eat("(")
+                inner = self.expr()
+                self.eat(")")
+                return ("some", inner, tok.line)
             if self.at("{") and not ns and path[0][0].isupper():
                 self.eat("{")
                 fields = []
@@ -421,7 +480,54 @@ def _trace_norm(text):
     return _norm(t)
 
 
+def _canon_binders(t):
+    """the names bound by `Some ( x )` patterns inside a block are free: x -> _b1, _b2 .. in order of appearance"""
+    names = []
+    for m in re.finditer(r"Some \( ([A-Za-z_][A-Za-z0-9_]*) \)", t):
+        # only binders (in a pattern, i.e. before the `=` of an `if let`): approximated by "not yet seen and followed by a pattern context"
+        if m.group(1) not in names:
+            names.append(m.group(1))
+    for i, n in enumerate(names):
+        t = re.sub(r"(?<![A-Za-z0-9_.])" + re.escape(n) + r"(?![A-Za-z0-9_])", f"_b{i + 1}", t)
+    return t
+
+
+def _trace_norm2(text, renames):
+    """`_trace_norm`, with the locals of the function replaced by their canonical names and pattern binders canonicalised"""
+    t = _norm(text)
+    for rust, canon in renames.items():
+        t = re.sub(r"(?<![A-Za-z0-9_.])" + re.escape(rust) + r"(?![A-Za-z0-9_])", canon, t)
+    return _canon_binders(_trace_norm(t))
+
+
+# the unit-trace blocks of src/action/mod.rs (locals under their canonical names: i1 = the applied rule id, s1 = the
+# status_code_update / log_override borrowed from self)
+def _action_trace_shapes():
+    return [
+        "if let Some ( trace ) = unit_trace { trace . rule_ids_applied . insert ( i1 . to_string ( ) ) ; "
+        "if let ( Some ( target_hash ) , Some ( unit_id ) ) = ( & s1 . target_hash , & s1 . unit_id ) "
+        "{ trace . add_unit_id_with_target ( target_hash . as_str ( ) , unit_id . as_str ( ) ) ; } }",
+        "if let ( Some ( trace ) , Some ( unit_id ) ) = ( unit_trace , & s1 . unit_id ) "
+        '{ trace . add_unit_id_with_target ( "configuration::log" , unit_id ) ; }',
+    ]
+
+
 _TRACE_SHAPES = {_trace_norm(x) for x in _trace_shapes()}
+_TRACE_SHAPES2 = {_trace_norm2(x, {}) for x in list(_trace_shapes()) + _action_trace_shapes()}
+
+
+def _ast_text(e):
+    """canonical text of a path of field accesses / method calls (borrows do not matter); `?` for anything else"""
+    k = e[0]
+    if k == "var":
+        return e[1]
+    if k == "field":
+        return _ast_text(e[1]) + "." + e[2]
+    if k == "call":
+        return _ast_text(e[1]) + "." + e[2] + "(" + ",".join(_ast_text(a) for a in e[3]) + ")"
+    if k == "ref":
+        return _ast_text(e[1])
+    return "?"
 
 
 class _Tr:
@@ -444,22 +550,58 @@ class _Tr:
             self.vtypes[rust] = ty
         for rust, ty in cfg.get("arg_rust_types", {}).items():
             self.vtypes.setdefault(rust, ty)
+        for rust, (lean, ty) in cfg.get("pre_scope", {}).items():
+            self.scope[rust] = lean
+            self.vtypes[rust] = ty
         toks = parser.t
         for i in range(len(toks) - 1):
             if toks[i].kind == "id" and toks[i + 1].text == "-=":
                 self.int_vars.add(toks[i].text)
 
     _PREFIX = {"Bool": "b", "Nat": "n", "Int": "z", "List Char": "cs", "List Nat": "bytes", "Char": "c",
-               "List (String × String)": "hs", "String × String": "h"}
+               "List (String × String)": "hs", "String × String": "h",
+               "σ": "s", "ι": "i", "κ": "k", "α": "a", "β": "a"}
 
     def fresh(self, ty):
         """canonical Lean name of a new local: the names of the source are free (alpha-renaming changes nothing)"""
-        pre = self._PREFIX.get(ty, "v")
+        pre = self._PREFIX.get(ty, "o" if ty.startswith("Option ") else "v")
         self.counters[pre] = self.counters.get(pre, 0) + 1
         return f"{pre}{self.counters[pre]}"
 
+    @staticmethod
+    def opt_inner(ty):
+        inner = ty[len("Option "):].strip()
+        if inner.startswith("(") and inner.endswith(")"):
+            inner = inner[1:-1]
+        return inner
+
+    def renames(self):
+        """rust local -> canonical name (for the comparison of unit-trace blocks), the trace argument under its usual name"""
+        r = {k: v for k, v in self.scope.items() if k in self.vtypes and k not in self.cfg.get("arg_rust_types", {})
+             and k not in self.cfg.get("mutable_args", {})}
+        if self.cfg.get("trace_arg"):
+            r[self.cfg["trace_arg"]] = "unit_trace"
+        return r
+
     def infer(self, e, name=None):
         k = e[0]
+        ab = self.cfg.get("abstract", {}).get(_ast_text(e))
+        if ab:
+            return ab[1]
+        if k == "ref":
+            return self.infer(e[1], name)
+        if k == "call" and e[2] in ("as_ref", "as_deref", "to_string", "to_owned", "as_str") and not e[3]:
+            return self.infer(e[1], name)
+        if k == "call" and e[2] == "unwrap_or" and len(e[3]) == 1:
+            t = self.infer(e[1], name)
+            if t.startswith("Option "):
+                return self.opt_inner(t)
+        if k == "call" and e[1][0] == "var" and e[1][1] == "self" and e[2] in self.cfg.get("self_calls", {}):
+            return self.cfg["self_calls"][e[2]][1]
+        if k == "call" and e[2] in self.cfg.get("extern_calls", {}) and len(self.cfg["extern_calls"][e[2]][1]) == 1:
+            return self.cfg["extern_calls"][e[2]][1][0]
+        if k == "call" and e[2] == "contains":
+            return "Bool"
         if k == "pathcall" and e[1] == "Vec::new":
             if "vec_type" not in self.cfg:
                 self.fail("`Vec::new()` without a known element type in this function", e[2])
@@ -489,6 +631,15 @@ class _Tr:
     # ---- expressions
     def expr(self, e):
         k = e[0]
+        ab = self.cfg.get("abstract", {}).get(_ast_text(e))
+        if ab:
+            return ab[0]
+        if k == "var" and e[1] == "None":
+            return "none"
+        if k == "some":
+            return f"some {self.atom(e[1])}"
+        if k == "tuple":
+            return "(" + ", ".join(self.expr(x) for x in e[1]) + ")"
         if k == "var":
             if e[1] == "self":
                 self.fail("bare `self` is not in the subset", e[2])
@@ -532,6 +683,22 @@ class _Tr:
                 self.scope, self.header_vars = saved, saved_h
                 fn = {"any": "any", "all": "all", "find": "find?"}[name]
                 return f"{self.scope[lst[1]]}.{fn} (fun {lv} => {b})"
+            if name in ("as_ref", "as_deref") and not args:
+                return self.expr(base)
+            if name in ("to_string", "to_owned", "as_str") and not args:
+                if self.infer(base) != "ι":
+                    self.fail(f"`.{name}()` only on an id (a `String`)", line)
+                return self.expr(base)
+            if name == "unwrap_or" and len(args) == 1:
+                if not self.infer(base).startswith("Option "):
+                    self.fail("`.unwrap_or(..)` only on an `Option`", line)
+                return f"{self.atom(base)}.getD {self.atom(args[0])}"
+            if name == "contains" and len(args) == 1 and self.infer(base).startswith("List "):
+                return f"{self.atom(base)}.contains {self.atom(args[0])}"
+            if name in self.cfg.get("extern_calls", {}):
+                fn, ret, recv = self.cfg["extern_calls"][name]
+                if len(ret) == 1 and self.infer(base) == recv:
+                    return f"{fn} {self.atom(base)} " + " ".join(self.atom(a) for a in args)
             if name in ("is_some", "is_none") and not args:
                 return f"{self.atom(base)}.{'isSome' if name == 'is_some' else 'isNone'}"
             self.fail(f"method `.{name}(..)` is not in the subset", line)
@@ -566,6 +733,9 @@ class _Tr:
                 return f"{self.atom(a)} {op} {self.atom(b)}"
             if op in ("&&", "||"):
                 return f"{self.atom(a)} {op} {self.atom(b)}"
+            if op in ("<", ">", "<=", ">="):
+                lop = {"<": "<", ">": ">", "<=": "≤", ">=": "≥"}[op]
+                return f"decide ({self.atom(a)} {lop} {self.atom(b)})"
         self.fail(f"expression form `{k}` is not in the subset", e[-1] if isinstance(e[-1], int) else 0)
 
     def atom(self, e):
@@ -605,6 +775,14 @@ class _Tr:
                 e = st[1]
                 if e[0] == "call" and e[2] in ("push", "extend"):
                     add(self.lvalue(e[1]))
+                if e[0] == "call" and e[2] == "insert" and self.cfg.get("set_insert"):
+                    add(self.lvalue(e[1]))
+            elif k == "iflet":
+                if st[3] is not None and _trace_norm2(st[1], self.renames()) not in _TRACE_SHAPES2:
+                    walk_block(st[3][2])
+            elif k == "let" and st[3][0] == "call" and st[3][1] == ("var", "self", st[3][1][2]) \
+                    and st[3][2] in self.cfg.get("self_calls", {}):
+                self.fail("a `&mut self` call inside a branch that continues is not in the subset", st[4])
             elif k == "letmacro":
                 add(self.lvalue(st[3][0]))
             elif k == "if":
@@ -660,10 +838,47 @@ class _Tr:
             if tail is not None and tail[0] == "if":
                 return self.if_lines(tail, [], None, k_end, k_break, ind, is_tail=True)
             if tail is not None and tail[0] == "match":
-                self.fail("`match` is only supported at the top level of the function", tail[3])
+                return self.match_lines(tail, k_end, k_break, ind)
             return [pad + k_end(self.expr(tail) if tail is not None else None)]
         st, rest = stmts[0], stmts[1:]
         k = st[0]
+        if k == "let" and st[3][0] == "call" and st[3][1][0] == "var" and st[3][1][1] == "self" \
+                and st[3][2] in self.cfg.get("self_calls", {}):
+            _, name, mutable, e, line = st
+            fn, ty, nargs = self.cfg["self_calls"][e[2]]
+            args = e[3]
+            for extra in args[nargs:]:
+                txt = _ast_text(extra[1]) if extra[0] == "some" else _ast_text(extra)
+                if txt not in (self.cfg.get("trace_arg"), f"{self.cfg.get('trace_arg')}.as_deref_mut()"):
+                    self.fail("extra argument of the `self` call is not the unit trace", line)
+            if len(args) < nargs:
+                self.fail("too few arguments in the `self` call", line)
+            vals = " ".join(self.atom(a) for a in args[:nargs])
+            lean = self.fresh(ty)
+            self.scope[name] = lean
+            self.vtypes[name] = ty
+            if name in self.decl:
+                self.decl.remove(name)
+            self.decl.append(name)
+            return [pad + f"let ({lean}, st) := {fn} st {vals}"] + self.seq(rest, tail, k_end, k_break, ind)
+        if k == "lettuple":
+            _, names, e, line = st
+            if e[0] != "call" or e[2] not in self.cfg.get("extern_calls", {}):
+                self.fail("tuple `let` only from a known external call", line)
+            fn, ret, recv = self.cfg["extern_calls"][e[2]]
+            if len(ret) != len(names) or self.infer(e[1]) != recv:
+                self.fail("tuple `let`: arity / receiver of the external call differ from the modelled ones", line)
+            call = f"{fn} {self.atom(e[1])} " + " ".join(self.atom(a) for a in e[3])
+            leans = []
+            for n, ty in zip(names, ret):
+                lean = self.fresh(ty)
+                self.scope[n] = lean
+                self.vtypes[n] = ty
+                if n in self.decl:
+                    self.decl.remove(n)
+                self.decl.append(n)
+                leans.append(lean)
+            return [pad + f"let ({', '.join(leans)}) := {call}"] + self.seq(rest, tail, k_end, k_break, ind)
         if k == "let":
             _, name, mutable, e, line = st
             val = self.expr(e)
@@ -711,12 +926,42 @@ class _Tr:
             if e[0] == "call" and e[2] == "extend" and len(e[3]) == 1:
                 x = self.lean_of(self.lvalue(e[1]))
                 return [pad + f"let {x} := {x} ++ {self.atom(e[3][0])}"] + self.seq(rest, tail, k_end, k_break, ind)
+            if e[0] == "call" and e[2] == "insert" and len(e[3]) == 1 and self.cfg.get("set_insert"):
+                x = self.lean_of(self.lvalue(e[1]))
+                return [pad + f"let {x} := {self.cfg['set_insert']} {x} {self.atom(e[3][0])}"] + self.seq(rest, tail, k_end, k_break, ind)
             self.fail("expression statement not in the subset", line)
         if k == "iflet":
-            _, text, line = st
-            if _trace_norm(text) not in _TRACE_SHAPES:
+            _, text, line, structured = st
+            if _trace_norm(text) in _TRACE_SHAPES or _trace_norm2(text, self.renames()) in _TRACE_SHAPES2:
+                return self.seq(rest, tail, k_end, k_break, ind)
+            if structured is None:
                 self.fail("`if let` block is not one of the known unit-trace side-effect shapes", line)
-            return self.seq(rest, tail, k_end, k_break, ind)
+            var, scrut, body = structured
+            if body[1] is not None:
+                self.fail("`if let` block with a value", line)
+            if self.escapes(body):
+                self.fail("`break` / `return` inside `if let Some(..)`", line)
+            base = scrut
+            while base[0] == "ref" or (base[0] == "call" and base[2] in ("as_ref", "as_deref", "clone") and not base[3]):
+                base = base[1]
+            ty = self.infer(base)
+            if not ty.startswith("Option "):
+                self.fail("`if let Some(..)` on something that is not a modelled `Option`", line)
+            sc = self.atom(base)
+            saved = dict(self.scope)
+            tup0 = None
+            inner = self.opt_inner(ty)
+            v = self.fresh(inner)
+            self.scope[var] = v
+            self.vtypes[var] = inner
+            names = self.order(set(self.assigned(body)))
+            if not names:
+                self.fail("`if let Some(..)` block that neither assigns a modelled variable nor is a known unit-trace block", line)
+            tup = self.tuple_of(names)
+            b = self.seq(body[0], None, lambda _v: tup, k_break, ind + 2)
+            self.scope = saved
+            lines = [pad + f"let {tup} :=", pad + f"  match {sc} with", pad + f"  | none => {tup}", pad + f"  | some {v} =>"] + b
+            return lines + self.seq(rest, tail, k_end, k_break, ind)
         if k == "break":
             if k_break is None:
                 self.fail("`break` outside a loop", st[1])
@@ -781,6 +1026,31 @@ class _Tr:
         self.scope = saved
         lines = [pad + f"let {tup} :=", pad + f"  if {c} then"] + a + [pad + "  else"] + b
         return lines + self.seq(rest, tail, k_end, k_break, ind)
+
+    def match_lines(self, node, k_end, k_break, ind):
+        """`match OPTION { None => .., Some(x) => .. }` in tail position (arms in canonical order: none first)"""
+        _, scrut, arms, line = node
+        pad = "  " * ind
+        base = scrut
+        while base[0] == "ref" or (base[0] == "call" and base[2] in ("as_ref", "as_deref", "clone") and not base[3]):
+            base = base[1]
+        ty = self.infer(base)
+        if not ty.startswith("Option "):
+            self.fail("`match` only on a modelled `Option` (or, at the top level, on the modelled enum)", line)
+        byname = {a[0]: a for a in arms}
+        if sorted(byname) != ["None", "Some"] or len(arms) != 2 or byname["None"][3] is not None or byname["Some"][3] is None:
+            self.fail("the arms of a `match` on an `Option` must be `None` and `Some(x)`", line)
+        lines = [pad + f"match {self.atom(base)} with", pad + "| none =>"]
+        saved = dict(self.scope)
+        lines += self.seq(byname["None"][1][0], byname["None"][1][1], k_end, k_break, ind + 1)
+        self.scope = dict(saved)
+        inner = self.opt_inner(ty)
+        v = self.fresh(inner)
+        self.scope[byname["Some"][3]] = v
+        self.vtypes[byname["Some"][3]] = inner
+        lines += [pad + f"| some {v} =>"] + self.seq(byname["Some"][1][0], byname["Some"][1][1], k_end, k_break, ind + 1)
+        self.scope = saved
+        return lines
 
     def for_lines(self, st, rest, tail, k_end, k_break, ind):
         _, var, it, body, line = st
@@ -894,7 +1164,9 @@ def _emit(cfg, parser, stmts, tail, fail, doc):
         out += aux + [""]
     par = " ".join(f"({n} : {t})" for n, t in cfg["params"])
     args = " ".join(f"({l} : {t})" for l, t in cfg.get("arg_types", []))
-    out += ["set_option linter.unusedVariables false in", f"/-- {doc} -/", f"def {cfg['name']} {par + ' ' if par else ''}{args} : {cfg['result_type']} :="] + lines
+    tp = cfg.get("tparams", "")
+    out += ["set_option linter.unusedVariables false in", f"/-- {doc} -/",
+            f"def {cfg['name']} {tp + ' ' if tp else ''}{par + ' ' if par else ''}{args} : {cfg['result_type']} :="] + lines
     return out
 
 
@@ -1028,6 +1300,156 @@ def extract_scan(read, fail):
     out.append("")
     out += _emit(cfg, parser, stmts, tail, fail,
                  f"`common_prefix_char_size` (strings as `List Char`; `group_level` is an `i32`: `Int`); translated from {path}.")
+    return out
+
+
+def _sig(src, path, pattern, fail):
+    """signature with the argument names captured (they are free); returns (regex matching exactly this signature, names)"""
+    m = re.search(pattern, src)
+    if not m:
+        fail(f"{path}: function with signature /{pattern}/ not found")
+    return re.escape(m.group(0)), list(m.groups())
+
+
+def extract_time(read, fail):
+    out = ["-- Rust -> Lean translation: the date / time / week-day / ip primitives of the router "
+           "(tools/consts.d/w4_translate_time.py, translator in w4_translate.py)"]
+    for path, struct, ty, lean_name, chain, absname in [
+            ("src/router/route_time.rs", "RouteTime", "NaiveTime", "genRouteTimeMatch", ".naive_utc().time()", "timeOfDay"),
+            ("src/router/route_datetime.rs", "RouteDateTime", "NaiveDateTime", "genRouteDateTimeMatch", ".naive_utc()", "instant")]:
+        src = read(path)
+        if not re.search(r"pub struct " + struct + r" \{\s*pub start: Option<" + ty + r">,\s*pub end: Option<" + ty + r">,\s*\}", src):
+            fail(f"{path}: `{struct}` is no longer {{ start: Option<{ty}>, end: Option<{ty}> }}")
+        if "Ord, PartialOrd)]\npub struct " + struct not in src:
+            fail(f"{path}: `{struct}` no longer derives its order")
+        hdr, (dt,) = _sig(src, path, r"pub fn match_datetime\(&self, (\w+): &DateTime<Utc>\) -> bool \{", fail)
+        cfg = {
+            "name": lean_name, "params": [], "args": {},
+            "arg_types": [("start", "Option Nat"), ("stop", "Option Nat"), (absname, "Nat")],
+            "self_fields": {"start": "start", "end": "stop"},
+            "self_field_types": {"start": "Option Nat", "end": "Option Nat"},
+            "abstract": {dt + chain: (absname, "Nat")},
+            "result_type": "Bool", "return": lambda tr, v: v,
+        }
+        parser, stmts, tail = _translate(read, fail, path, hdr, cfg)
+        out.append("")
+        out += _emit(cfg, parser, stmts, tail, fail,
+                     f"`{struct}::match_datetime` (bounds and `datetime{chain}` as `Nat`: their order is the order of the "
+                     f"chrono values); translated from {path}.")
+    # week days
+    path = "src/router/route_weekday.rs"
+    src = read(path)
+    if not re.search(r"pub struct Weekdays\(pub Vec<Weekday>\);", src) or \
+            not re.search(r"pub struct RouteWeekday \{\s*pub weekdays: Weekdays,\s*\}", src):
+        fail(f"{path}: `RouteWeekday` is no longer {{ weekdays: Weekdays(Vec<Weekday>) }}")
+    hdr, (dt,) = _sig(src, path, r"pub fn match_datetime\(&self, (\w+): &DateTime<Utc>\) -> bool \{", fail)
+    cfg = {
+        "name": "genRouteWeekdayMatch", "tparams": "{α : Type} [BEq α]", "params": [], "args": {},
+        "arg_types": [("weekdays", "List α"), ("weekday", "α")],
+        "self_fields": {},
+        "abstract": {"self.weekdays.0": ("weekdays", "List α"), dt + ".weekday()": ("weekday", "α")},
+        "result_type": "Bool", "return": lambda tr, v: v,
+    }
+    parser, stmts, tail = _translate(read, fail, path, hdr, cfg)
+    out.append("")
+    out += _emit(cfg, parser, stmts, tail, fail,
+                 f"`RouteWeekday::match_datetime` (`weekday` = `datetime.weekday()`); translated from {path}.")
+    # ip ranges
+    path = "src/router/route_ip.rs"
+    src = read(path)
+    if not re.search(r"pub enum RouteIp \{\s*InRange\(AnyIpCidr\),\s*NotInRange\(AnyIpCidr\),\s*\}", src):
+        fail(f"{path}: `RouteIp` is no longer {{InRange(AnyIpCidr), NotInRange(AnyIpCidr)}}")
+    hdr, (ip,) = _sig(src, path, r"pub fn match_ip\(&self, (\w+): &IpAddr\) -> bool \{", fail)
+    base = {"params": [("contains", "κ → β → Bool")], "tparams": "{κ β : Type}", "args": {ip: "ip"},
+            "arg_types": [("range", "κ"), ("ip", "β")], "self_fields": {}, "arg_rust_types": {ip: "β"},
+            "extern_calls": {"contains": ("contains", ["Bool"], "κ")},
+            "result_type": "Bool", "return": lambda tr, v: v}
+    parser, stmts, tail = _translate(read, fail, path, hdr, dict(base, name="genRouteIpMatch"))
+    if stmts or tail is None or tail[0] != "match" or tail[1][0] != "var" or tail[1][1] != "self":
+        fail(f"{path}: `match_ip` is no longer a single `match self`")
+    arms = {a[0].split("::")[-1]: a for a in tail[2]}
+    if sorted(arms) != ["InRange", "NotInRange"] or len(tail[2]) != 2 or any(a[3] is None for a in tail[2]) or \
+            any(a[0].split("::")[0] not in ("Self", "RouteIp") for a in tail[2]):
+        fail(f"{path}:{tail[3]}: arms of `match self` are {[a[0] for a in tail[2]]}")
+    for variant in ["InRange", "NotInRange"]:
+        arm = arms[variant]
+        cfg = dict(base, name="genRouteIpMatch" + variant, pre_scope={arm[3]: ("range", "κ")})
+        out.append("")
+        out += _emit(cfg, parser, arm[1][0], arm[1][1], fail,
+                     f"`RouteIp::match_ip`, arm `{variant}` (`contains` = `AnyIpCidr::contains`); translated from {path}.")
+    return out
+
+
+def extract_action(read, fail):
+    out = ["-- Rust -> Lean translation: the use-time decision functions of `Action` "
+           "(tools/consts.d/w4_translate_action.py, translator in w4_translate.py)"]
+    path = "src/action/mod.rs"
+    src = read(path)
+    want = (r"pub struct Action \{\s*status_code_update: Option<StatusCodeUpdate>,.*?"
+            r"pub rules_applied: LinkedHashSet<String>,\s*log_override: Option<LogOverride>,\s*\}")
+    if not re.search(want, src, re.S):
+        fail(f"{path}: `Action` no longer has the modelled fields status_code_update / rules_applied / log_override")
+    if not re.search(r"pub fn get_status_code\(&self, \w+: u16\) -> \(u16, Option<&String>\) \{", read("src/action/status_code_update.rs")):
+        fail("src/action/status_code_update.rs: the signature of `get_status_code` changed")
+    if not re.search(r"pub fn get_log_override\(&self, \w+: u16\) -> \(Option<bool>, Option<String>, bool\) \{", read("src/action/log_override.rs")):
+        fail("src/action/log_override.rs: the signature of `get_log_override` changed")
+    if len(re.findall(r"fn get_status_code\(", src)) != 1:
+        fail(f"{path}: expected exactly one `get_status_code` in this file")
+
+    # Action::get_status_code
+    hdr, (c, ut) = _sig(src, path, r"pub fn get_status_code\(&mut self, (\w+): u16, (\w+): Option<&mut UnitTrace>\) -> u16 \{", fail)
+    cfg = {
+        "name": "genActionGetStatusCode", "tparams": "{σ ι : Type}",
+        "params": [("subGet", "σ → Nat → Nat × Option ι"), ("insert", "List ι → ι → List ι")],
+        "args": {c: "c"}, "arg_rust_types": {c: "Nat"}, "trace_arg": ut,
+        "arg_types": [("statusCodeUpdate", "Option σ"), ("rulesApplied", "List ι"), ("c", "Nat")],
+        "self_fields": {"status_code_update": "statusCodeUpdate", "rules_applied": "rulesApplied"},
+        "self_field_types": {"status_code_update": "Option σ", "rules_applied": "List ι"},
+        "self_out": ["rules_applied"], "set_insert": "insert",
+        "extern_calls": {"get_status_code": ("subGet", ["Nat", "Option ι"], "σ")},
+        "result_type": "Nat × List ι", "return": lambda tr, v: f"({v}, rulesApplied)",
+    }
+    parser, stmts, tail = _translate(read, fail, path, hdr, cfg)
+    out.append("")
+    out += _emit(cfg, parser, stmts, tail, fail,
+                 "`Action::get_status_code`: (returned code, new `rules_applied`); `subGet` = `StatusCodeUpdate::get_status_code`, "
+                 f"`insert` = `LinkedHashSet::insert`; the unit-trace block is skipped; translated from {path}.")
+
+    # Action::get_final_status_code_with_fallback
+    hdr, (c, fb, ut) = _sig(src, path, r"pub fn get_final_status_code_with_fallback\(\s*&mut self,\s*(\w+): u16,\s*(\w+): u16,\s*"
+                                       r"(\w+): &mut UnitTrace,?\s*\) -> \(u16, u16\) \{", fail)
+    cfg = {
+        "name": "genActionGetFinalStatusCode", "tparams": "{α : Type}",
+        "params": [("getStatusCode", "α → Nat → Nat × α")],
+        "args": {c: "c", fb: "fallback"}, "arg_rust_types": {c: "Nat", fb: "Nat"}, "trace_arg": ut,
+        "arg_types": [("st", "α"), ("c", "Nat"), ("fallback", "Nat")],
+        "self_fields": {}, "self_calls": {"get_status_code": ("getStatusCode", "Nat", 1)},
+        "result_type": "(Nat × Nat) × α", "return": lambda tr, v: f"({v}, st)",
+    }
+    parser, stmts, tail = _translate(read, fail, path, hdr, cfg)
+    out.append("")
+    out += _emit(cfg, parser, stmts, tail, fail,
+                 "`Action::get_final_status_code_with_fallback`: ((final code, response code used), new `self`); `getStatusCode` = "
+                 f"`Action::get_status_code` on the `&mut self` state `st`; translated from {path}.")
+
+    # Action::should_log_request
+    hdr, (allow, c, ut) = _sig(src, path, r"pub fn should_log_request\(&mut self, (\w+): bool, (\w+): u16, (\w+): Option<&mut UnitTrace>\) -> bool \{", fail)
+    cfg = {
+        "name": "genActionShouldLogRequest", "tparams": "{σ ι : Type}",
+        "params": [("subGet", "σ → Nat → Option Bool × Option ι × Bool"), ("insert", "List ι → ι → List ι")],
+        "args": {allow: "allowLogConfig", c: "c"}, "arg_rust_types": {allow: "Bool", c: "Nat"}, "trace_arg": ut,
+        "arg_types": [("logOverride", "Option σ"), ("rulesApplied", "List ι"), ("allowLogConfig", "Bool"), ("c", "Nat")],
+        "self_fields": {"log_override": "logOverride", "rules_applied": "rulesApplied"},
+        "self_field_types": {"log_override": "Option σ", "rules_applied": "List ι"},
+        "self_out": ["rules_applied"], "set_insert": "insert",
+        "extern_calls": {"get_log_override": ("subGet", ["Option Bool", "Option ι", "Bool"], "σ")},
+        "result_type": "Bool × List ι", "return": lambda tr, v: f"({v}, rulesApplied)",
+    }
+    parser, stmts, tail = _translate(read, fail, path, hdr, cfg)
+    out.append("")
+    out += _emit(cfg, parser, stmts, tail, fail,
+                 "`Action::should_log_request`: (decision, new `rules_applied`); `subGet` = `LogOverride::get_log_override`; "
+                 f"the unit-trace block is skipped; translated from {path}.")
     return out
 
 
